@@ -1,0 +1,21 @@
+//go:build verif
+
+package server
+
+// This file is compiled only with `-tags verif`. It gives the verification harness in /verif the sizes of
+// the session queues as ground truth for the queued / in-flight gauges; it adds nothing to the normal build.
+
+// VerifQueueLens returns, per client id with a queue store, the queue length and the number of in-flight
+// elements, for queue implementations that export VerifLens (persistence/queue/mem under the verif tag).
+func (srv *server) VerifQueueLens() map[string][2]int {
+	srv.mu.Lock()
+	defer srv.mu.Unlock()
+	res := make(map[string][2]int, len(srv.queueStore))
+	for id, q := range srv.queueStore {
+		if l, ok := q.(interface{ VerifLens() (int, int) }); ok {
+			t, i := l.VerifLens()
+			res[id] = [2]int{t, i}
+		}
+	}
+	return res
+}
